@@ -11,11 +11,13 @@ import glob, json, os, sys
 
 ROOT = os.path.dirname(os.path.dirname(os.path.abspath(__file__)))
 TEMPLATE_NAME = "C08d"
+# what the code base already violates (pinned by existing tests), so that agents aim elsewhere
+EXTRA_NOTES = {'C14': 'Note: the code base satisfies the invariance parts of the statement only for the triclinic lattice system (other systems have pre-existing defects pinned by tests), so aim at behaviour that currently DOES hold. ', 'C18': "Note: three deviations already exist in the code base and are pinned by doctests (simple_shear_2d's gradient is twice the Jacobian of its velocity; cell_2d's two vertical-row gradient entries are exchanged; get_pathline occasionally raises a root-finder ValueError) - do not rely on those. "}
 
 
 def main():
     suffix = sys.argv[1]
-    tmpl = open(f"/tmp/seedout/{TEMPLATE_NAME}.prompt.txt").read()
+    tmpl = open(os.path.join(ROOT, "tools", "seed_prompt_template.txt")).read()  # the C08d prompt
     a = tmpl.index("-----\n") + 6
     b = tmpl.index("-----\n", a)
     c = tmpl.index("DIVERSITY NOTE:")
@@ -43,11 +45,7 @@ def main():
         for m in sorted(glob.glob(os.path.join(ROOT, "seeded", pid + "*", "meta.json"))):
             prev.append(json.load(open(m)).get("summary", "").replace("\n", " ")[:260])
         extra = ""
-        dprompt = f"/tmp/seedout/{pid}d.prompt.txt"
-        if os.path.exists(dprompt):
-            t = open(dprompt).read()
-            i = t.index("DIVERSITY NOTE: ") + 16
-            extra = t[i : t.index("Previous adversaries", i)]
+        extra = EXTRA_NOTES.get(pid, "")
         note = "DIVERSITY NOTE: " + extra + "Previous adversaries already made these changes (do something in a DIFFERENT part of the code or of a different nature): " + " || ".join(
             f"({i + 1}) {t}" for i, t in enumerate(prev)
         )
